@@ -253,8 +253,13 @@ def run_replay(prop, path):
         # that leaf, in order) - results that depend on earlier calls of the same execution reproduce this way
         hs = [h for h in mod.harnesses(rec.get("tier", "quick"), rec.get("seed", 0)) if h["name"] == rec["harness"] and "body" in h]
         if hs:
-            ctx = engine._run(hs[0]["body"], list(rec["choices"]), engine.Stats(), hs[0].get("bound"))
-            fails = [f for f in ctx.failures if f["clause"] == rec["clause"]]
+            try:
+                ctx = engine._run(hs[0]["body"], list(rec["choices"]), engine.Stats(), hs[0].get("bound"))
+                fails = [f for f in ctx.failures if f["clause"] == rec["clause"]]
+            except engine.ReplayDivergence:
+                fails = []          # the harness alphabet changed since the artefact was written: only the case itself can be replayed
+                hs = []
+        if hs:
             if not fails:
                 # still passing: the observation may depend on calls made by EARLIER executions of the same worker
                 # (module-level state in the library).  Explore the harness sequentially from its root for up to
